@@ -65,7 +65,7 @@ impl Prop for C10 {
         "exploration"
     }
     fn rule(&self) -> String {
-        "run = seeded valid writer history with interleaved files spanning several chunks and blocks (all layer sets), opened once with the normal reader over the simulated source; then a seeded history of 20..200 reader operations on that ONE reader: list, get_hash, open a file (abandoning whichever was open), reads with buffers from {0,1,2,3,5,7,13,31,61,127,CHUNK-1,CHUNK,CHUNK+1,BLOCK-1,BLOCK,BLOCK+1,1 MiB}, read-to-end, reads after the end, opening missing names, the same file repeatedly; a quarter of the file visits STOP EXACTLY (or one byte around) where the file's bytes cross a block or chunk edge of the file-layer stream (positions solved from the stream-length model), abandon the file there and continue with the next operation. Model: a per-file cursor over the abstract model's bytes (= what reading that file alone right after opening gives, which C01 establishes): every read returns exactly the bytes at the cursor (fewer than asked is allowed, 0 only for an empty buffer or at the end), sizes and hashes equal the model's at every point of the history. distinct_nontrivial = distinct (variant, layers, #files, interleaved, abandon point class vs chunk/block edge, buffer class) signatures.".into()
+        "run = seeded valid writer history with interleaved files spanning several chunks and blocks (all layer sets), opened once with the normal reader over the simulated source; then a seeded history of 20..200 reader operations on that ONE reader: list, get_hash, open a file (abandoning whichever was open), reads with buffers from {0,1,2,3,5,7,13,31,61,127,CHUNK-1,CHUNK,CHUNK+1,BLOCK-1,BLOCK,BLOCK+1,1 MiB}, read-to-end, reads after the end, opening missing names, the same file repeatedly; a quarter of the file visits STOP EXACTLY (or one byte around) where the file's bytes cross a block or chunk edge of the file-layer stream (positions solved from the stream-length model), abandon the file there and continue with the next operation. One scaled run in 50 has 300..4200 files and a history that asks for the hash of EVERY file, then again for the first 120 and 150 seeded ones, then opens, reads and hashes every seventh file and the first 60 (thousands of operations on one reader). Model: a per-file cursor over the abstract model's bytes (= what reading that file alone right after opening gives, which C01 establishes): every read returns exactly the bytes at the cursor (fewer than asked is allowed, 0 only for an empty buffer or at the end), sizes and hashes equal the model's at every point of the history. distinct_nontrivial = distinct (variant, layers, #files, interleaved, abandon point class vs chunk/block edge, buffer class) signatures.".into()
     }
     fn assumptions(&self) -> Vec<String> {
         vec!["the source splits nothing (split sources are C13)".into()]
@@ -96,6 +96,13 @@ impl Prop for C10 {
             ops = gen_many_files(&mut rng, n, ll, 40);
         }
         maybe_many_recipients(&mut rng, &mut cfg, 40);
+        // one scaled run in 50: hundreds to thousands of files, every one of them visited and then visited again
+        let sweep = !big && rng.chance(1, 50);
+        if sweep {
+            let n = *rng.pick(&[300usize, 1100, 1100, 2100, 4200]);
+            let ll = rng.range(1, 2) as usize;
+            ops = gen_many_files(&mut rng, n, ll, 12);
+        }
         let mut case = Case::new("C10", cfg, ops);
         let model = model_of(&case.ops);
         let n = if big { rng.range(10, 40) } else { rng.range(20, 200) } as usize;
@@ -112,6 +119,27 @@ impl Prop for C10 {
             }
         }
         case.rops = gen_rops(&mut rng, &model, n, c.chunk, c.block, &edges);
+        if sweep {
+            // get_hash of every file, then of the first ones and of seeded ones again; then the same with get_file + read
+            let names = &model.order;
+            let mut r = vec![ROp::List];
+            for nm in names {
+                r.push(ROp::Hash { name: nm.clone() });
+            }
+            for nm in names.iter().take(120) {
+                r.push(ROp::Hash { name: nm.clone() });
+            }
+            for _ in 0..150 {
+                r.push(ROp::Hash { name: (*rng.pick(names)).clone() });
+            }
+            for nm in names.iter().step_by(7).chain(names.iter().take(60)) {
+                r.push(ROp::Open { name: nm.clone() });
+                r.push(ROp::ReadAll { n: 64 });
+                r.push(ROp::Hash { name: nm.clone() });
+            }
+            r.extend(std::mem::take(&mut case.rops).into_iter().take(60));
+            case.rops = r;
+        }
         case
     }
     fn exec(&self, case: &Case, ctx: &mut Ctx) -> Vec<Violation> {
